@@ -82,11 +82,53 @@ Theorem C09_seq_dump_after_dump : forall w c slot o v o' v' md' m,
 Proof. exact dump_after_dump. Qed.
 Print Assumptions C09_seq_dump_after_dump.
 
-Theorem C09_seq_dump_stream : forall w c slot o v md m,
-  c_verb c = VDump -> spec c = AWrote m SGivenStream true ->
-  get_stream (fst (step w (OCall c slot o v md))) slot = get_stream w slot ++ [TW m o v].
+(* a stream target is written AT ITS POSITION -- where the class-level writer handed the same stream writes --
+   and left right behind the record: a stream positioned behind its text is appended to (and stays behind its
+   text); one that already holds text and is positioned inside it (built from a string, rewound, opened "r+")
+   keeps what lies before the position and what lies behind the record, which replaces exactly one record *)
+Theorem C09_seq_dump_stream : forall w c slot o v md m p,
+  c_verb c = VDump -> spec c = AWrote m SGivenStream true -> get_sstate w slot = SOpenAt p ->
+  get_stream (fst (step w (OCall c slot o v md))) slot = write_at (get_stream w slot) p [TW m o v] /\
+  get_sstate (fst (step w (OCall c slot o v md))) slot = SOpenAt (S p).
 Proof. exact dump_stream_effect. Qed.
 Print Assumptions C09_seq_dump_stream.
+
+Theorem C09_seq_dump_stream_at_end : forall w c slot o v md m,
+  c_verb c = VDump -> spec c = AWrote m SGivenStream true ->
+  get_sstate w slot = SOpenAt (length (get_stream w slot)) ->
+  let w' := fst (step w (OCall c slot o v md)) in
+  get_stream w' slot = get_stream w slot ++ [TW m o v] /\
+  get_sstate w' slot = SOpenAt (length (get_stream w' slot)).
+Proof. exact dump_stream_at_end. Qed.
+Print Assumptions C09_seq_dump_stream_at_end.
+
+Theorem C09_seq_dump_stream_position : forall w c slot o v md m p,
+  c_verb c = VDump -> spec c = AWrote m SGivenStream true -> get_sstate w slot = SOpenAt p ->
+  p <= length (get_stream w slot) ->
+  let t' := get_stream (fst (step w (OCall c slot o v md))) slot in
+  firstn p t' = firstn p (get_stream w slot) /\ nth_error t' p = Some (TW m o v) /\
+  skipn (S p) t' = skipn (S p) (get_stream w slot) /\
+  length t' = Nat.max (length (get_stream w slot)) (S p).
+Proof. exact dump_stream_keeps_rest. Qed.
+Print Assumptions C09_seq_dump_stream_position.
+
+(* the hypotheses are met: a stream holding two documents, positioned at its start (a StringIO built from a
+   string), is overwritten record by record; rewound by its owner it is overwritten again; moved to its end
+   it is appended to.  Jumping to the end before writing would give three other texts. *)
+Example C09_seq_position_nonvacuous :
+  let cs := mk_cell VDump FMol2 FsExplicit OEns false TStream PMolli false in
+  let w := mk_world [] [(0, [TDoc 70; TDoc 71]); (1, [TDoc 72])] [(0, SOpenAt 0); (1, SOpenAt 1)] in
+  streams_ready w = true /\ spec cs = AWrote (VDump, FMol2) SGivenStream true /\
+  map (fun ob => (ob_streams ob, ob_sstate ob))
+      (run w [OCall cs 0 0 0 MAppend; OSeek 0 0; OCall cs 0 0 1 MAppend; OSeek 0 9; OCall cs 0 1 0 MAppend;
+              OCall cs 1 1 0 MAppend])
+  = [([[TW (VDump, FMol2) 0 0; TDoc 71]; [TDoc 72]], [SOpenAt 1; SOpenAt 1]);
+     ([[TW (VDump, FMol2) 0 0; TDoc 71]; [TDoc 72]], [SOpenAt 0; SOpenAt 1]);
+     ([[TW (VDump, FMol2) 0 1; TDoc 71]; [TDoc 72]], [SOpenAt 1; SOpenAt 1]);
+     ([[TW (VDump, FMol2) 0 1; TDoc 71]; [TDoc 72]], [SOpenAt 2; SOpenAt 1]);
+     ([[TW (VDump, FMol2) 0 1; TDoc 71; TW (VDump, FMol2) 1 0]; [TDoc 72]], [SOpenAt 3; SOpenAt 1]);
+     ([[TW (VDump, FMol2) 0 1; TDoc 71; TW (VDump, FMol2) 1 0]; [TDoc 72; TW (VDump, FMol2) 1 0]], [SOpenAt 3; SOpenAt 2])].
+Proof. vm_compute. repeat split; reflexivity. Qed.
 
 (* frame: a call touches no file and no stream other than the one it addresses; only dump writes *)
 Theorem C09_seq_frame : forall w c slot o v md,
@@ -99,18 +141,20 @@ Proof.
 Qed.
 Print Assumptions C09_seq_frame.
 
-(* WHAT THE CALLER OWNS.  In every history, from every world: the streams the caller handed over keep their
-   state (open, positioned after the text) across any number of calls -- successful or REFUSED, readers or
-   writers; every observation of `run` reports exactly those states and no file handle left open by the
-   library; a refused call (spec = ARaise: unsupported format, unknown parser, no format at all) leaves the
-   whole world as it was, so the stream it was given holds what it held. *)
+(* WHAT THE CALLER OWNS.  In every history, from every world: a stream that no operation addresses (no dump
+   INTO it, no seek by its owner) holds what it held and stays where it was -- across any number of calls,
+   successful or REFUSED, readers or writers; the streams the caller handed over stay usable (open, on a record
+   boundary); every observation of `run` reports exactly that and no file handle left open by the library; a
+   refused call (spec = ARaise: unsupported format, unknown parser, no format at all) leaves the whole world as
+   it was, so the stream it was given holds what it held, where it was. *)
 Theorem C09_seq_streams_stay_open : forall w p,
-  (forall s, get_sstate (final w p) s = get_sstate w s) /\
+  (forall s, existsb (touches_stream s) p = false ->
+             get_stream (final w p) s = get_stream w s /\ get_sstate (final w p) s = get_sstate w s) /\
   (streams_ready w = true -> streams_ready (final w p) = true) /\
-  (forall ob, In ob (run w p) -> ob_sstate ob = map snd (w_sstate w) /\ ob_left_open ob = 0).
+  (streams_ready w = true -> forall ob, In ob (run w p) -> forallb is_open (ob_sstate ob) = true /\ ob_left_open ob = 0).
 Proof.
   intros; split; [|split]; intros;
-    [apply stream_state_preserved | apply streams_stay_ready; assumption | apply (run_obs_owned w p); assumption].
+    [apply stream_state_preserved | apply streams_stay_ready | apply (run_obs_owned w p)]; assumption.
 Qed.
 Print Assumptions C09_seq_streams_stay_open.
 
@@ -118,7 +162,7 @@ Theorem C09_seq_refused_leaves_world : forall w pre c slot o v md e,
   spec c = ARaise e ->
   step (final w pre) (OCall c slot o v md) = (final w pre, (ARaise e, None)) /\
   (forall s, get_stream (final w (pre ++ [OCall c slot o v md])) s = get_stream (final w pre) s /\
-             get_sstate (final w (pre ++ [OCall c slot o v md])) s = get_sstate w s).
+             get_sstate (final w (pre ++ [OCall c slot o v md])) s = get_sstate (final w pre) s).
 Proof.
   intros w pre c slot o v md e H. split; [apply refused_leaves_world; exact H|].
   intros s. destruct (refused_dump_keeps_stream w pre c slot o v md e s H) as [H1 [H2 _]]. split; assumption.
@@ -132,17 +176,17 @@ Example C09_seq_owned_nonvacuous :
   let cn := mk_cell VDump FXyz FsSuffix OMol false TStream PMolli false in
   let cu := mk_cell VDump FUnknown FsExplicit OEns false TStream PMolli false in
   let cp := mk_cell VDump FMol2 FsExplicit OMol false TStream PUnknown false in
-  let w := mk_world [] [(0, []); (1, [])] [(0, SOpenAtEnd); (1, SOpenAtEnd)] in
+  let w := mk_world [] [(0, []); (1, [])] [(0, SOpenAt 0); (1, SOpenAt 0)] in
   streams_ready w = true /\ spec cn = ARaise XUnsupported /\ spec cu = ARaise XUnsupported /\
   spec cp = ARaise XUnsupported /\
   map (fun ob => (ob_streams ob, ob_sstate ob, ob_left_open ob))
       (run w [OCall cs 0 0 0 MAppend; OCall cn 0 0 0 MAppend; OCall cu 0 1 0 MAppend; OCall cp 0 0 0 MAppend;
               OCall cs 0 0 1 MAppend])
-  = [([[TW (VDump, FXyz) 0 0]; []], [SOpenAtEnd; SOpenAtEnd], 0);
-     ([[TW (VDump, FXyz) 0 0]; []], [SOpenAtEnd; SOpenAtEnd], 0);
-     ([[TW (VDump, FXyz) 0 0]; []], [SOpenAtEnd; SOpenAtEnd], 0);
-     ([[TW (VDump, FXyz) 0 0]; []], [SOpenAtEnd; SOpenAtEnd], 0);
-     ([[TW (VDump, FXyz) 0 0; TW (VDump, FXyz) 0 1]; []], [SOpenAtEnd; SOpenAtEnd], 0)].
+  = [([[TW (VDump, FXyz) 0 0]; []], [SOpenAt 1; SOpenAt 0], 0);
+     ([[TW (VDump, FXyz) 0 0]; []], [SOpenAt 1; SOpenAt 0], 0);
+     ([[TW (VDump, FXyz) 0 0]; []], [SOpenAt 1; SOpenAt 0], 0);
+     ([[TW (VDump, FXyz) 0 0]; []], [SOpenAt 1; SOpenAt 0], 0);
+     ([[TW (VDump, FXyz) 0 0; TW (VDump, FXyz) 0 1]; []], [SOpenAt 2; SOpenAt 0], 0)].
 Proof. vm_compute. repeat split; reflexivity. Qed.
 
 Theorem C09_seq_check_sound : forall sc, check_seq sc = true -> run (sc_init sc) (sc_prog sc) = sc_obs sc.
@@ -156,7 +200,7 @@ Example C09_seq_nonvacuous :
   let ca := mk_cell VLoadAll FXyz FsSuffix OMol true TPathObj PMolli false in
   let cd := mk_cell VDump FXyz FsSuffix OMol false TPath PMolli false in
   let k := fkey_of cl 0 in
-  let w := mk_world [(k, [TDoc 1]); (fkey_of cd 0, [TDoc 5])] [(0, [])] [(0, SOpenAtEnd)] in
+  let w := mk_world [(k, [TDoc 1]); (fkey_of cd 0, [TDoc 5])] [(0, [])] [(0, SOpenAt 0)] in
   is_load cl = true /\ spec cl = ARet (RCtor KMol 0 NNone) /\
   spec cd = AWrote (VDump, FXyz) SOpenedPath true /\ fkey_of ca 0 = fkey_of cd 0 /\
   map (fun ob => snd (ob_res ob))
